@@ -489,6 +489,41 @@ func (in *inliner) rewriteList(list *[]ast.Stmt, stack map[*ast.FuncDecl]bool, d
 					}
 				}
 			}
+		case *ast.DeclStmt:
+			// var x = h(…) (also inside a grouped var (...) declaration, which is split into its specs first:
+			// local variable specs are evaluated in order, so the split preserves behaviour)
+			if gd, ok := x.Decl.(*ast.GenDecl); ok && gd.Tok == token.VAR {
+				inlinable := false
+				for _, sp := range gd.Specs {
+					if vs, ok := sp.(*ast.ValueSpec); ok && len(vs.Values) == 1 && len(vs.Names) >= 1 {
+						if call, ok := Unparen(vs.Values[0]).(*ast.CallExpr); ok {
+							if _, d := in.calleeDecl(call); d != nil && !stack[d] {
+								inlinable = true
+							}
+						}
+					}
+				}
+				if inlinable {
+					for _, sp := range gd.Specs {
+						vs, isVS := sp.(*ast.ValueSpec)
+						one := &ast.DeclStmt{Decl: &ast.GenDecl{TokPos: gd.TokPos, Tok: token.VAR, Specs: []ast.Spec{sp}}}
+						if isVS && len(vs.Values) == 1 {
+							if call, ok := Unparen(vs.Values[0]).(*ast.CallExpr); ok {
+								if pre, blk := in.inlineCallStmt(call, stack, depth, true); blk != nil && len(pre.names) == len(vs.Names) {
+									out = append(out, pre.decls...)
+									out = append(out, blk)
+									vs.Values = pre.idents(call.Pos())
+									out = append(out, one)
+									continue
+								}
+							}
+						}
+						in.rewriteStmt(one, stack, depth)
+						out = append(out, one)
+					}
+					continue
+				}
+			}
 		case *ast.IfStmt:
 			// (D) if h(…) / if !h(…) with a multi-statement helper returning one value: the call is the
 			// first thing the statement evaluates, so it can be hoisted in front of it
